@@ -1,5 +1,6 @@
 import TemprenModel.Lemmas.FSLemmas
 import TemprenModel.Lemmas.PipelineLemmas
+import TemprenModel.Props.C05
 /-!
 # C02 — A reported success means the template's plan was applied exactly
 
@@ -8,9 +9,13 @@ the default (stop) strategy has reported **exactly one rename for each file whos
 differs from its current one, with exactly the generated destination, none with override, and
 nothing else** (`success_reports_exactly_the_plan`).  Each reported rename is one renamer call that
 succeeded, and by C01/C06 such a call moves exactly its source (identity and content kept) onto a
-path that did not exist.  That the *composition* of these renames is the plan applied to the
-initial tree, and that free plans and uniformly ordered chains succeed, is decided by the oracle
-and the exhaustive small-plan enumeration of the check (stated, not yet proved: `…_partial`).
+path that did not exist.  **Free plans succeed** is proved for name mode on link-free trees
+(`free_plan_succeeds_name_mode`: every file list, order, strategy and scripted answers; the real run ends
+`done` having reported exactly the planned renames in processing order) by proving it for the dry-run
+renamer (set algebra) and transferring it through the C05 simulation.  That the *composition* of the
+renames is the plan applied to the initial tree (identities and contents), that uniformly ordered chains
+succeed, and free plans in path/directory mode are decided by the oracle and the exhaustive small-plan
+enumeration of the check (not theorems).
 -/
 namespace Tempren
 namespace C02
@@ -308,6 +313,232 @@ theorem success_means_all_generated (R : Renamer σ) (gen : Nat → Gen) :
                   by_cases hfe : e.isFileExists = true
                   · simp only [hfe, if_true] at h; exact key _ _ h
                   · simp [hfe] at h
+
+/-! ### a conflict-free plan succeeds (name mode) -/
+
+/-- a **free** name-mode plan: every file gets a path; a changed one has the name-mode shape and a
+    destination that does not exist in the initial tree; the sources exist and are pairwise different
+    entries; the destinations are pairwise different -/
+structure FreePlan (base : FS) (files : List FileRec) (gen : Nat → Gen) : Prop where
+  gens : ∀ (k : Nat) (f : FileRec), files[k]? = some f → ∃ p, gen k = .path p ∧
+      (p = f.rel ∨ (C05.NameCall base f.inputDir f.rel p ∧ lexists base (absKey f.inputDir p) = false))
+  srcs : ∀ (k : Nat) (f : FileRec), files[k]? = some f → lexists base (absKey f.inputDir f.rel) = true
+  srcDistinct : ∀ (k₁ k₂ : Nat) (f₁ f₂ : FileRec), k₁ < k₂ → files[k₁]? = some f₁ → files[k₂]? = some f₂ →
+      absKey f₁.inputDir f₁.rel ≠ absKey f₂.inputDir f₂.rel
+  dstDistinct : ∀ (k₁ k₂ : Nat) (f₁ f₂ : FileRec) (p₁ p₂ : PurePath), k₁ < k₂ → files[k₁]? = some f₁ → files[k₂]? = some f₂ →
+      gen k₁ = .path p₁ → gen k₂ = .path p₂ → p₁ ≠ f₁.rel → p₂ ≠ f₂.rel →
+      absKey f₁.inputDir p₁ ≠ absKey f₂.inputDir p₂
+
+/-- what the dry-run state may contain after the first `k` files of a free plan -/
+def FreeInv (base : FS) (all : List FileRec) (gen : Nat → Gen) (k : Nat) (d : DryState) : Prop :=
+  d.base = base ∧
+  (∀ x ∈ d.removed, ∃ (k' : Nat) (f' : FileRec), k' < k ∧ all[k']? = some f' ∧ x = absKey f'.inputDir f'.rel) ∧
+  (∀ x ∈ d.created, ∃ (k' : Nat) (f' : FileRec) (p' : PurePath), k' < k ∧ all[k']? = some f' ∧ gen k' = .path p' ∧ p' ≠ f'.rel ∧ x = absKey f'.inputDir p')
+
+theorem nameCall_contained (base : FS) (hl : LinkFree base) (dir : APath) (src dst : PurePath)
+    (hG : C05.NameCall base dir src dst) : contained base dir dst = .ok true ∧ dst ≠ src := by
+  obtain ⟨sp, n, m, rfl, rfl, hnm, hn, hm, hsp, _, _, _⟩ := hG
+  constructor
+  · rw [C05.linkFree_resolve hl]
+    simp only [Bool.false_eq_true, if_false]
+    rw [lexNorm_plain]
+    · congr 1
+      rw [List.isPrefixOf_iff_prefix]
+      exact ⟨sp ++ [m], rfl⟩
+    · intro c hc
+      rw [List.mem_append, List.mem_singleton] at hc
+      rcases hc with hc | hc
+      · exact hsp c hc
+      · rw [hc]; exact hm
+  · intro h
+    have := congrArg PurePath.parts h
+    simp at this
+    exact hnm this.symm
+
+theorem dry_firstPass_free (base : FS) (hl : LinkFree base) (all : List FileRec) (gen : Nat → Gen)
+    (hfree : FreePlan base all gen) :
+    ∀ (rest : List FileRec) (i : Nat) (r : Run DryState), all.drop i = rest → FreeInv base all gen i r.st →
+      ∃ r', firstPass dryRenamer gen i rest r [] = (r', [], none) ∧
+        r'.events.map moveOf = r.events.map moveOf ++ planned gen i rest ∧
+        (∀ e ∈ r'.events, e ∈ r.events ∨ e.override = false) := by
+  intro rest
+  induction rest with
+  | nil => intro i r _ _; exact ⟨r, by simp [firstPass], by simp [planned], fun e he => Or.inl he⟩
+  | cons f rest ih =>
+    intro i r hdrop hinv
+    have hfi : all[i]? = some f := by
+      have := congrArg (fun l => l[0]?) hdrop
+      simpa using this
+    have hdrop' : all.drop (i + 1) = rest := by
+      have := congrArg (fun l => l.drop 1) hdrop
+      simpa [List.drop_drop, Nat.add_comm] using this
+    have hmono : ∀ d, FreeInv base all gen i d → FreeInv base all gen (i + 1) d := by
+      rintro d ⟨hb, hr, hc⟩
+      refine ⟨hb, ?_, ?_⟩
+      · intro x hx; obtain ⟨k', f', hk, h⟩ := hr x hx; exact ⟨k', f', by omega, h⟩
+      · intro x hx; obtain ⟨k', f', p', hk, h⟩ := hc x hx; exact ⟨k', f', p', by omega, h⟩
+    obtain ⟨p, hgp, hcase⟩ := hfree.gens i f hfi
+    rw [firstPass, planned]
+    simp only [hgp]
+    rcases hcase with hsame | ⟨hG, hfreeDst⟩
+    · simp only [hsame, if_true, List.nil_append]
+      exact ih (i + 1) r hdrop' (hmono _ hinv)
+    · obtain ⟨hcont, hne⟩ := nameCall_contained base hl f.inputDir f.rel p hG
+      obtain ⟨hb, hrem, hcre⟩ := hinv
+      simp only [hne, if_false]
+      have hview : dryRenamer.view r.st = base := hb
+      rw [hview, hcont]
+      simp only
+      -- the call succeeds
+      obtain ⟨hkne, hcall⟩ := C05.dry_name_call base r.st f.inputDir f.rel p false hG
+      have hvd : C05.vexists r.st (absKey f.inputDir p) = false := by
+        unfold C05.vexists
+        rw [hb, hfreeDst]
+        have : r.st.created.contains (absKey f.inputDir p) = false := by
+          rw [Bool.eq_false_iff]
+          intro hc
+          obtain ⟨k', f', p', hk, hf', hg', hne', hx⟩ := hcre _ (List.contains_iff_mem.mp hc)
+          exact hfree.dstDistinct k' i f' f p' p hk hf' hfi hg' hgp hne' hne hx.symm
+        rw [this]; rfl
+      have hvs : C05.vexists r.st (absKey f.inputDir f.rel) = true := by
+        unfold C05.vexists
+        rw [hb, hfree.srcs i f hfi]
+        have : r.st.removed.contains (absKey f.inputDir f.rel) = false := by
+          rw [Bool.eq_false_iff]
+          intro hc
+          obtain ⟨k', f', hk, hf', hx⟩ := hrem _ (List.contains_iff_mem.mp hc)
+          exact hfree.srcDistinct k' i f' f hk hf' hfi hx.symm
+        rw [this]; rfl
+      rw [hvd, hvs] at hcall
+      rw [if_neg (by simp), if_neg (by simp)] at hcall
+      let d' : DryState :=
+        { r.st with removed := (r.st.removed ++ [absKey f.inputDir f.rel]).filter (· ≠ absKey f.inputDir p),
+                    created := (r.st.created ++ [absKey f.inputDir p]).filter (· ≠ absKey f.inputDir f.rel) }
+      let r1 : Run DryState :=
+        { st := d', events := r.events ++ [{ dir := f.inputDir, src := f.rel, dst := p, override := false }],
+          calls := r.calls ++ [(f.inputDir, f.rel, p, false)] }
+      have hrc : r.call dryRenamer f.inputDir f.rel p false = (r1, none) := by
+        have hc : dryRenamer.call r.st f.inputDir f.rel p false = (d', none) := hcall
+        simp only [Run.call, hc]
+        rfl
+      rw [hrc]
+      simp only
+      have hinv' : FreeInv base all gen (i + 1) r1.st := by
+        show FreeInv base all gen (i + 1) d'
+        refine ⟨hb, ?_, ?_⟩
+        · intro x hx
+          have hx' := (List.mem_filter.mp hx).1
+          rw [List.mem_append, List.mem_singleton] at hx'
+          rcases hx' with hx' | hx'
+          · obtain ⟨k', f', hk, h⟩ := hrem x hx'; exact ⟨k', f', by omega, h⟩
+          · exact ⟨i, f, by omega, hfi, hx'⟩
+        · intro x hx
+          have hx' := (List.mem_filter.mp hx).1
+          rw [List.mem_append, List.mem_singleton] at hx'
+          rcases hx' with hx' | hx'
+          · obtain ⟨k', f', p', hk, h⟩ := hcre x hx'; exact ⟨k', f', p', by omega, h⟩
+          · exact ⟨i, f, p, by omega, hfi, hgp, hne, hx'⟩
+      obtain ⟨r', h1, h2, h3⟩ := ih (i + 1) r1 hdrop' hinv'
+      refine ⟨r', h1, ?_, ?_⟩
+      · rw [h2]; simp [r1, moveOf]
+      · intro e he
+        rcases h3 e he with h | h
+        · simp only [r1, List.mem_append, List.mem_singleton] at h
+          rcases h with h | h
+          · exact Or.inl h
+          · right; rw [h]
+        · exact Or.inr h
+
+/-- **C02 (free plans succeed, name mode)**: on a link-free tree, a free plan — whatever the file list,
+    the processing order, the strategy and the scripted stop/ignore/override answers — ends successfully in the
+    REAL run, which reports exactly the planned renames in processing order, none with override -/
+theorem free_plan_succeeds_name_mode (base : FS) (hw : WF base) (hl : LinkFree base)
+    (files : List FileRec) (gen : Nat → Gen) (strategy : Strategy) (answers : List Answer)
+    (hfree : FreePlan base files gen) (hnocustom : ∀ q, Answer.custom q ∉ answers) :
+    (execute realNameRenamer { fs := base } files gen strategy answers).2 = .done ∧
+    (execute realNameRenamer { fs := base } files gen strategy answers).1.events.map moveOf = planned gen 0 files ∧
+    ∀ e ∈ (execute realNameRenamer { fs := base } files gen strategy answers).1.events, e.override = false := by
+  have hplan : ∀ k f, files[k]? = some f → ∀ p, gen k = .path p → p ≠ f.rel → C05.NameCall base f.inputDir f.rel p := by
+    intro k f hf p hg hne
+    obtain ⟨p', hg', hc⟩ := hfree.gens k f hf
+    rw [hg] at hg'
+    have : p = p' := by injection hg'
+    subst this
+    rcases hc with hc | hc
+    · exact absurd hc hne
+    · exact hc.1
+  obtain ⟨hev, hout⟩ := C05.dry_run_predicts_name_mode base hw hl files gen strategy answers hplan hnocustom
+  have hinv0 : FreeInv base files gen 0 ({ base := base } : DryState) :=
+    ⟨rfl, fun x hx => by simp at hx, fun x hx => by simp at hx⟩
+  obtain ⟨r', h1, h2, h3⟩ := dry_firstPass_free base hl files gen hfree files 0 { st := { base := base } } (by simp) hinv0
+  have hdry : execute dryRenamer { base := base } files gen strategy answers = (r', .done) := by
+    unfold execute
+    rw [h1]
+    simp [secondPass]
+  rw [hev, hout, hdry]
+  refine ⟨rfl, by simpa using h2, ?_⟩
+  intro e he
+  rcases h3 e he with h | h
+  · simp at h
+  · exact h
+
+/-- the hypotheses are satisfiable: `in/a → x`, `in/b → y` is a free plan on the tree `in/{a, b}` -/
+example :
+    let base : FS := [⟨["in".toList], 1, .dir, 0⟩, ⟨["in".toList, "a".toList], 2, .file, 1⟩,
+                      ⟨["in".toList, "b".toList], 3, .file, 2⟩]
+    let files : List FileRec := [⟨["in".toList], ⟨false, ["a".toList]⟩⟩, ⟨["in".toList], ⟨false, ["b".toList]⟩⟩]
+    let gen : Nat → Gen := fun i => if i = 0 then .path ⟨false, ["x".toList]⟩ else .path ⟨false, ["y".toList]⟩
+    FreePlan base files gen := by
+  intro base files gen
+  have nc : ∀ (n m : Name), n ≠ m → n ≠ dotdot → m ≠ dotdot → isDirAt base (["in".toList] ++ [] ++ [n]) = false →
+      isDirAt base (["in".toList] ++ [] ++ [m]) = false →
+      C05.NameCall base ["in".toList] ⟨false, [n]⟩ ⟨false, [m]⟩ := by
+    intro n m h1 h2 h3 h4 h5
+    refine ⟨[], n, m, rfl, rfl, h1, h2, h3, by simp, ?_, h4, h5⟩
+    intro k hk
+    have : k = 0 := by simpa using hk
+    subst this; decide
+  constructor
+  · intro k f hf
+    match k, hf with
+    | 0, hf =>
+      have : f = ⟨["in".toList], ⟨false, ["a".toList]⟩⟩ := by simpa [files] using hf.symm
+      subst this
+      exact ⟨⟨false, ["x".toList]⟩, rfl, Or.inr ⟨nc _ _ (by decide) (by decide) (by decide) (by decide) (by decide), by decide⟩⟩
+    | 1, hf =>
+      have : f = ⟨["in".toList], ⟨false, ["b".toList]⟩⟩ := by simpa [files] using hf.symm
+      subst this
+      exact ⟨⟨false, ["y".toList]⟩, rfl, Or.inr ⟨nc _ _ (by decide) (by decide) (by decide) (by decide) (by decide), by decide⟩⟩
+    | k + 2, hf => simp [files] at hf
+  · intro k f hf
+    match k, hf with
+    | 0, hf =>
+      have : f = ⟨["in".toList], ⟨false, ["a".toList]⟩⟩ := by simpa [files] using hf.symm
+      subst this; decide
+    | 1, hf =>
+      have : f = ⟨["in".toList], ⟨false, ["b".toList]⟩⟩ := by simpa [files] using hf.symm
+      subst this; decide
+    | k + 2, hf => simp [files] at hf
+  · intro k₁ k₂ f₁ f₂ hlt h1 h2
+    match k₁, k₂, hlt, h1, h2 with
+    | 0, 1, _, h1, h2 =>
+      have e1 : f₁ = ⟨["in".toList], ⟨false, ["a".toList]⟩⟩ := by simpa [files] using h1.symm
+      have e2 : f₂ = ⟨["in".toList], ⟨false, ["b".toList]⟩⟩ := by simpa [files] using h2.symm
+      subst e1; subst e2; decide
+    | _, k + 2, _, _, h2 => simp [files] at h2
+    | k + 1, 1, hlt, _, _ => omega
+    | _, 0, hlt, _, _ => omega
+  · intro k₁ k₂ f₁ f₂ p₁ p₂ hlt h1 h2 g1 g2 _ _
+    match k₁, k₂, hlt, h1, h2, g1, g2 with
+    | 0, 1, _, h1, h2, g1, g2 =>
+      have e1 : f₁ = ⟨["in".toList], ⟨false, ["a".toList]⟩⟩ := by simpa [files] using h1.symm
+      have e2 : f₂ = ⟨["in".toList], ⟨false, ["b".toList]⟩⟩ := by simpa [files] using h2.symm
+      have e3 : p₁ = ⟨false, ["x".toList]⟩ := by simpa [gen] using g1.symm
+      have e4 : p₂ = ⟨false, ["y".toList]⟩ := by simpa [gen] using g2.symm
+      subst e1; subst e2; subst e3; subst e4; decide
+    | _, k + 2, _, _, h2, _, _ => simp [files] at h2
+    | k + 1, 1, hlt, _, _, _, _ => omega
+    | _, 0, hlt, _, _, _, _ => omega
 
 end C02
 end Tempren
